@@ -421,7 +421,7 @@ impl ZXAyChip {
 //@ fn rustzx-core/src/zx/sound/ay.rs impl ZXAyChip::select_reg props C07 C18
 //@ sig
         ensures final(self).wf(), final(self).current_reg == (reg & 0x0F) as usize, reg as int % 16 == (reg & 0x0F) as int,
-            final(self).regs == old(self).regs,
+            final(self).regs == old(self).regs, final(self).ay == old(self).ay,
 //@ at 1 /self\.current_reg/
         proof { assert((reg & 0x0F) < 16 && (reg & 0x0F) == reg % 16) by(bit_vector); }
 //@ end
@@ -855,19 +855,22 @@ impl<H: Host> ZXController<H> {
 //@ sig
         ensures final(self).mixer.ay.wf(), final(self).mixer.ay.current_reg == (value & 0x0F) as usize,
             final(self).mixer.ay.regs == old(self).mixer.ay.regs, final(self).mixer.beeper == old(self).mixer.beeper,
+            final(self).mixer.ay.ay == old(self).mixer.ay.ay,
             final(self).same_but_mixer(old(self)),
 //@ end
 
-//@ fn rustzx-core/src/zx/controller.rs impl <H:Host>ZXController<H>::write_ay_port props C07
+//@ fn rustzx-core/src/zx/controller.rs impl <H:Host>ZXController<H>::write_ay_port props C07 C18
 //@ sig
         requires old(self).mixer.ay.wf(),
         ensures final(self).mixer.ay.wf(), final(self).mixer.ay.current_reg == old(self).mixer.ay.current_reg,
             final(self).mixer.ay.regs@ == old(self).mixer.ay.regs@.update(old(self).mixer.ay.current_reg as int, value),
+            // C18: the value reaches the sound generator under the selected register number
+            final(self).mixer.ay.ay.writes() == old(self).mixer.ay.ay.writes().push((old(self).mixer.ay.current_reg as u8, value)),
             final(self).mixer.beeper == old(self).mixer.beeper,
             final(self).same_but_mixer(old(self)),
 //@ end
 
-//@ fn rustzx-core/src/zx/controller.rs impl <H:Host>Z80BusforZXController<H>::write_io props C07 C04 C08 C09
+//@ fn rustzx-core/src/zx/controller.rs impl <H:Host>Z80BusforZXController<H>::write_io props C07 C04 C08 C09 C18
 //@ sig
         requires old(self).inv(), old(self).room(8),
         ensures final(self).inv(),
@@ -906,7 +909,10 @@ impl<H: Host> ZXController<H> {
             // AY data write
             sel_ay_data(port) && old(self).ndev_w(port) == 1 ==> final(self).dev_same(old(self), true, false, true, true)
                 && final(self).mixer.ay.current_reg == old(self).mixer.ay.current_reg
-                && final(self).mixer.ay.regs@ == old(self).mixer.ay.regs@.update(old(self).mixer.ay.current_reg as int, data),
+                && final(self).mixer.ay.regs@ == old(self).mixer.ay.regs@.update(old(self).mixer.ay.current_reg as int, data)
+                && final(self).mixer.ay.ay.writes() == old(self).mixer.ay.ay.writes().push((old(self).mixer.ay.current_reg as u8, data)),
+            // no other port write reaches the sound generator
+            !sel_ay_data(port) ==> final(self).mixer.ay.ay.writes() == old(self).mixer.ay.ay.writes(),
             // 128K paging latch (accepted unless locked; RAM/ROM contents never change)
             sel_paging(old(self).machine, port) && old(self).ndev_w(port) == 1 ==> final(self).dev_same(old(self), true, true, false, true),
             sel_paging(old(self).machine, port) && old(self).ndev_w(port) == 1 ==>
